@@ -1,14 +1,16 @@
 #!/bin/sh
 # usage: dev/try_seed.sh <patch.diff> <check ids...>   - apply a seeded change to /repo, run checks, undo
+# (the evidence files of the checks are saved and restored: evidence must come from the unchanged tree)
 P=$1; shift
 if [ -n "$(git -C /repo status --porcelain)" ]; then echo "uncommitted changes in /repo - commit them first"; exit 2; fi
 rm -rf /tmp/verif_ev_backup && cp -r /verif/evidence /tmp/verif_ev_backup
 git -C /repo apply "$P" || exit 2
 for c in "$@"; do
-  /verif/bin/check $c 2>&1 | grep -v "^VIOLATION" | tail -1
-  /verif/bin/check $c 2>&1 | grep -c "^VIOLATION" | sed "s/^/   VIOLATION lines: /"
+  /verif/bin/check $c > /tmp/verif_try_seed.out 2>&1
+  grep -v "^VIOLATION\|^KNOWN" /tmp/verif_try_seed.out | tail -1
+  grep -c "^VIOLATION" /tmp/verif_try_seed.out | sed "s/^/   VIOLATION lines: /"
 done
 git -C /repo checkout -- .
 for c in "$@"; do cp /tmp/verif_ev_backup/$c.json /verif/evidence/$c.json 2>/dev/null; done
-rm -rf /tmp/verif_ev_backup
+rm -rf /tmp/verif_ev_backup /verif/evidence/replays
 git -C /repo status --short | head -3
